@@ -91,7 +91,7 @@ class GenBuild:
         self.dir, self.driver, self.asn1c_rc, self.asn1c_out, self.ok, self.err = d, driver, asn1c_rc, asn1c_out, ok, err
 
 
-def prune_cache(keep=24):
+def prune_cache(keep=10):
     base = os.path.join(SCRATCH, "gen")
     try:
         ds = sorted((os.path.join(base, d) for d in os.listdir(base)), key=os.path.getmtime)
@@ -168,13 +168,59 @@ def build_module(module, flags=(), san="plain", extra_sources=(), driver_src=Non
 
 
 # ---- TLC ----------------------------------------------------------------------------
-def run_tlc(module, cfg_text, env=None, workers=1, timeout=900, heap="8g", extra=()):
+BUILTIN_NAMES = ["true", "false", "BOOLEAN", "NULL", "INTEGER", "ENUMERATED", "REAL", "BIT_STRING", "OCTET_STRING",
+                 "OBJECT_IDENTIFIER", "RELATIVE-OID", "SEQUENCE", "SET", "CHOICE", "SEQUENCE_OF", "SET_OF", "IA5String",
+                 "VisibleString", "PrintableString", "NumericString", "UTF8String", "BMPString", "UniversalString",
+                 "UTCTime", "GeneralizedTime", "PLUS-INFINITY", "MINUS-INFINITY", "NOT-A-NUMBER", ""]
+_names_file = None
+
+
+def collect_names(t, acc):
+    if isinstance(t, dict):
+        for k, v in t.items():
+            if k == "n" and isinstance(v, str):
+                acc.add(v)
+            else:
+                collect_names(v, acc)
+    elif isinstance(t, list):
+        for x in t:
+            collect_names(x, acc)
+
+
+def names_file():
+    """character codes of every identifier of the universe (TLC cannot take strings apart)"""
+    global _names_file
+    if _names_file:
+        return _names_file
+    h = hashlib.sha256()
+    for f in ("Universe.tla", "Values.tla", "Asn1Types.tla"):
+        h.update(open(os.path.join(SPEC, f), "rb").read())
+    path = os.path.join(SCRATCH, "names-%s.json" % h.hexdigest()[:16])
+    if not os.path.exists(path):
+        rc, out, st = run_tlc("MC_Mod", "", names=False)
+        mods = tlc_payload(out, "MOD")
+        if rc != 0 or not mods:
+            raise Infra("MC_Mod failed:\n" + tlc_error_excerpt(out))
+        acc = set(BUILTIN_NAMES)
+        for m in mods:
+            collect_names(m, acc)
+        os.makedirs(SCRATCH, exist_ok=True)
+        tmp = path + ".%d" % os.getpid()
+        json.dump({n: [ord(c) for c in n] for n in sorted(acc)}, open(tmp, "w"))
+        os.replace(tmp, path)
+    _names_file = path
+    return path
+
+
+def run_tlc(module, cfg_text, env=None, workers=1, timeout=900, heap="8g", extra=(), names=True):
     """runs TLC on spec/<module>.tla with the given config text; returns (rc, stdout, stats)"""
     meta = tempfile.mkdtemp(prefix="tlc-", dir=SCRATCH)
     cfg = os.path.join(meta, "run.cfg")
     open(cfg, "w").write(cfg_text)
     e = dict(os.environ)
     e.update(env or {})
+    if names:
+        e["VERIF_NAMES"] = names_file()
     cmd = ["timeout", str(timeout), "java", "-XX:+UseParallelGC", "-Xmx" + heap, "-Xss64m", "-cp", TLC_CP, "tlc2.TLC",
            "-workers", str(workers), "-metadir", os.path.join(meta, "states"), "-config", cfg] + list(extra) + [module + ".tla"]
     t0 = time.time()
@@ -208,7 +254,7 @@ def tlc_error_excerpt(out):
 
 def generate(spec_module, constants, invariants, workers=1, timeout=900, init="Init", next_="Next", extra_cfg=""):
     """Generator run: returns (module json, scenarios, stats)."""
-    cfg = "CONSTANTS\n" + "".join("  %s\n" % c for c in constants) + \
+    cfg = "CONSTANTS\n  NameCodes <- TheNames\n" + "".join("  %s\n" % c for c in constants) + \
           "INIT %s\nNEXT %s\nINVARIANTS %s\nCHECK_DEADLOCK FALSE\n%s" % (init, next_, " ".join(invariants), extra_cfg)
     rc, out, stats = run_tlc(spec_module, cfg, workers=workers, timeout=timeout)
     if rc != 0:
@@ -355,7 +401,7 @@ def judge(trace_module, mod_json, scns, events, constants=("Mod <- TheMod",), in
                     n += 1
         json.dump(mod_json, open(mp, "w"))
         jobs.append((k, sp, tp, mp, {v: kk for kk, v in idmap.items()}, n))
-    cfg = "CONSTANTS\n" + "".join("  %s\n" % c for c in constants) + "INIT TInit\nNEXT TNext\n" + \
+    cfg = "CONSTANTS\n  NameCodes <- TheNames\n" + "".join("  %s\n" % c for c in constants) + "INIT TInit\nNEXT TNext\n" + \
           ("INVARIANTS %s\n" % " ".join(invariants) if invariants else "") + \
           "POSTCONDITION TraceAccepted\nCHECK_DEADLOCK FALSE\n"
 
